@@ -5,6 +5,8 @@ CONSTANTS
   MaxUid = 31
   CompactAt = 16
   Compact = FALSE
+  SortKindOrder <- MCSortKindOrder
+  WithSortFull = FALSE
   Wrap = TRUE
   MaxInit = 2
   MaxElems = 3
